@@ -86,17 +86,35 @@ def run(ctx, replay=None):
     variants = [("meta", 0), ("odd", 10800)] if q else [("plain", 0), ("meta", 0), ("odd", 10800), ("meta", -34200)]
     if proto == "card":
         variants = [(c, 0) for c in dict.fromkeys(c for c, _ in variants)]
-    rejects = []
+    # large universes are judged in chunks (each judge process reads its chunk's cases and observations only)
+    CH = 20000
+    qlines = open(os.path.join(gen, "queries.ndjson")).read().splitlines()
+    dirs = [gen]
+    if len(qlines) > CH:
+        dirs = []
+        for k in range(0, len(qlines), CH):
+            d = os.path.join(gen, "chunk%02d" % (k // CH))
+            os.makedirs(d, exist_ok=True)
+            open(os.path.join(d, "queries.ndjson"), "w").write("\n".join(qlines[k:k + CH]) + "\n")
+            for name in ("multigets", "invalid"):
+                src = open(os.path.join(gen, name + ".ndjson")).read().splitlines()
+                # the small universes ride along with the first chunk; the others keep one case so that the file is a valid sequence
+                open(os.path.join(d, name + ".ndjson"), "w").write("\n".join(src if k == 0 else src[:1]) + "\n")
+            dirs.append(d)
     total = 0
     universes = []
     obsfiles = []
+    fdir = {}
     for conc, zone in variants:
-        of = ctx.path("obs", "%s-%s-%d.ndjson" % (proto, conc, zone))
-        n = _rec(ctx, binp, ["-proto", proto, "-dir", gen, "-out", of, "-conc", conc, "-zone", zone])
+        n = 0
+        for di, d in enumerate(dirs):
+            of = ctx.path("obs", "%s-%s-%d-%02d.ndjson" % (proto, conc, zone, di))
+            n += _rec(ctx, binp, ["-proto", proto, "-dir", d, "-out", of, "-conc", conc, "-zone", zone])
+            obsfiles.append((of, conc, zone))
+            fdir[of] = d
         total += n
         universes.append({"concretisation": conc, "zone_offset_s": zone, "observations": n})
-        obsfiles.append((of, conc, zone))
-    rej, tot = ctx.judge(judgemod, [f for f, _, _ in obsfiles], env={"DIR": gen})
+    rej, tot = ctx.judge(judgemod, [f for f, _, _ in obsfiles], envs={f: {"DIR": fdir[f]} for f in fdir})
     ctx.cov["traces_validated_against_impl"] += tot
     meta = {f: (c, z) for f, c, z in obsfiles}
     # canaries
@@ -116,7 +134,7 @@ def run(ctx, replay=None):
             break
     cf = ctx.path("canary", "wire.ndjson")
     vlib.write_ndjson(cf, can)
-    crej, _ = ctx.judge(judgemod, [cf], env={"DIR": gen}, par=1)
+    crej, _ = ctx.judge(judgemod, [cf], env={"DIR": fdir[obsfiles[0][0]]}, par=1)
     ctx.cov["canaries_total"] += len(can)
     ctx.cov["canaries_rejected"] += len({ln for _, ln, _ in crej})
     if len({ln for _, ln, _ in crej}) != len(can):
@@ -126,14 +144,14 @@ def run(ctx, replay=None):
     ctx.cov["samples"].append(rows[1])
     sigs = {}
     if rej:
-        cases = {"queries": vlib.read_ndjson(gen + "/queries.ndjson"), "multigets": vlib.read_ndjson(gen + "/multigets.ndjson"), "invalid": vlib.read_ndjson(gen + "/invalid.ndjson")}
+        casesof = {}
         kindfile = {"srv": "queries", "cli": "queries", "mgsrv": "multigets", "mgcli": "multigets", "bad": "invalid"}
         again = {}
         for f, ln, s in rej:
             conc, zone = meta[f]
             if f not in again:
                 f2 = f + ".again"
-                _rec(ctx, binp, ["-proto", proto, "-dir", gen, "-out", f2, "-conc", conc, "-zone", zone])
+                _rec(ctx, binp, ["-proto", proto, "-dir", fdir[f], "-out", f2, "-conc", conc, "-zone", zone])
                 again[f] = open(f2).read().splitlines()
             line = open(f).read().splitlines()[ln - 1] if False else None
             sig = s[4:]
@@ -145,6 +163,9 @@ def run(ctx, replay=None):
                     raise Machinery("re-execution observed something different for %s" % sig)
                 obs = json.loads(obs_line)
                 kf = kindfile[obs["k"]]
+                if fdir[f] not in casesof:
+                    casesof[fdir[f]] = {n: vlib.read_ndjson(fdir[f] + "/" + n + ".ndjson") for n in ("queries", "multigets", "invalid")}
+                cases = casesof[fdir[f]]
                 case = {"queries": [], "multigets": [], "invalid": [], "conc": conc, "zone": zone}
                 case[kf] = [cases[kf][obs["i"] - 1]]
                 g["record"] = {"case": case, "observed": obs}
